@@ -9,7 +9,8 @@ InnerS == SchemaF(<< <<"tok", With(SecureF, [method |-> "aes"])>>, <<"n", With(I
 VaultT == [ctype |-> TRUE, keyfile |-> "kv"] @@ SchemaF(<< <<"sec", SecureF>>, <<"inner", InnerS>> >>)
 SubP   == SchemaF(<< <<"tok", With(SecureF, [method |-> "aes"])>>, <<"port", With(IntF, [default |-> IntV(80)])>> >>)
 SchemaP == SchemaF(<<
-    <<"name", With(StringF, [default |-> StrV(<<"n", "0">>)])>>,
+    \* (bound to a variable that is set to the EMPTY string: no binding, documents load normally)
+    <<"name", With(StringF, [default |-> StrV(<<"n", "0">>), env |-> EnvName(<<"N", "V">>)])>>,
     <<"pw", With(SecureF, [method |-> "xor"])>>,
     <<"hash", With(ChallengeF, [alg |-> "md5"])>>,
     <<"blob", BytesF>>,
@@ -29,7 +30,7 @@ SchemaP == SchemaF(<<
 
 MCKeyNames == {"sitems", "dflt", "dl", "name", "pw", "hash", "blob", "bl", "sl", "dd", "api", "sub", "tok", "port", "vault", "sec", "inner", "n", "items", "u", "virt", "svirt"}
 MCKeyChars == [k \in MCKeyNames |-> CASE k = "sitems" -> <<"s", "i", "t", "e", "m", "s">> [] k = "dflt" -> <<"d", "f", "l", "t">> [] k = "dl" -> <<"d", "l">> [] k = "name" -> <<"n", "a", "m", "e">> [] k = "pw" -> <<"p", "w">> [] k = "hash" -> <<"h", "a", "s", "h">> [] k = "blob" -> <<"b", "l", "o", "b">> [] k = "bl" -> <<"b", "l">> [] k = "sl" -> <<"s", "l">> [] k = "dd" -> <<"d", "d">> [] k = "api" -> <<"a", "p", "i">> [] k = "sub" -> <<"s", "u", "b">> [] k = "tok" -> <<"t", "o", "k">> [] k = "port" -> <<"p", "o", "r", "t">> [] k = "vault" -> <<"v", "a", "u", "l", "t">> [] k = "sec" -> <<"s", "e", "c">> [] k = "inner" -> <<"i", "n", "n", "e", "r">> [] k = "n" -> <<"n">> [] k = "items" -> <<"i", "t", "e", "m", "s">> [] k = "u" -> <<"u">> [] k = "virt" -> <<"v", "i", "r", "t">> [] k = "svirt" -> <<"s", "v", "i", "r", "t">>]
-MCEnviron == [x \in {} |-> <<>>]
+MCEnviron == [x \in {<<"N", "V">>} |-> <<>>]
 
 \* a ready-made instance of the vault type (it names its own key file) with secrets already set
 VaultF == FieldOf(S, "vault")
@@ -46,13 +47,15 @@ MCSetCands ==
           [] pk[2] = "dflt"  -> {D1(<<"a">>, IntV(5)), DictV(<<>>)}
           [] pk[2] = "dl"    -> {ListV(<<>>), ListV(<<IntV(2)>>)}
           [] pk[2] = "name"  -> {StrV(<<"b", "o", "b">>), StrV(<<" ", "p", "a", "d", " ", "<", "&", ">", "\t", "\n">>)}
-          [] pk[2] = "pw"    -> {StrV(<<"s", "3", "c", "r", "e", "t", "!", "p", "w">>), StrV(<<>>), LongSecret}
+          \* (a blank secret is a secret)
+          [] pk[2] = "pw"    -> {StrV(<<"s", "3", "c", "r", "e", "t", "!", "p", "w">>), StrV(<<>>), LongSecret, StrV(<<" ">>)}
           [] pk[2] = "hash"  -> {StrV(<<"h", "u", "n", "t", "e", "r", "2", "!">>)}
           \* (60 bytes: longer than one 76-column line of base64)
           [] pk[2] = "blob"  -> {BytesV(<<0, 255, 65>>), BytesV(<<>>), BytesV([i \in 1..60 |-> (i * 7) % 256])}
           [] pk[2] = "bl"    -> {ListV(<<BytesV(<<1, 2>>), StrV(<<"a", "b">>)>>)}
           [] pk[2] = "sl"    -> {ListV(<<StrV(<<"l", "i", "s", "t", "s", "e", "c", "r", "e", "t", "1">>), StrV(<<>>)>>)}
-          [] pk[2] = "dd"    -> {D1(<<"k">>, BytesV(<<7>>))}
+          \* (map keys that are XML names with "-" and ".")
+          [] pk[2] = "dd"    -> {D1(<<"k">>, BytesV(<<7>>)), D2(<<"k", "-", "1", ".", "x">>, BytesV(<<8>>), <<"k", "_", "1", "_", "x">>, BytesV(<<9>>))}
           [] pk[2] = "api"   -> {StrV(<<"A", "P", "I", "K", "E", "Y", "-", "7", "7">>)}
           \* (an AES secret of exactly one cipher block: the padding block must still be written)
           [] pk[1] = <<"sub">> -> {StrV(<<"s", "u", "b", "t", "o", "k", "e", "n", "#", "1">>),
